@@ -1,1 +1,34 @@
-fn main() {}
+//! lspsim — engine B: `lspsim <c23|c24|c26> [--tier …] [--seed …] [--replay …]` (coordinator) and
+//! `lspsim worker <ID> …` (one simulation process; the hooks are process-global).
+mod c23;
+mod c24;
+mod driver;
+mod model;
+mod sched;
+mod sim;
+
+fn def_of(id: &str) -> &'static driver::PropDef {
+    match id.to_uppercase().as_str() {
+        "C24" => &c24::DEF,
+        "C23" => &c23::DEF,
+        other => simcore::harness_error(&format!("unknown property {other}")),
+    }
+}
+
+fn main() {
+    let args: Vec<String> = std::env::args().skip(1).collect();
+    if args.is_empty() {
+        simcore::harness_error("usage: lspsim <c23|c24|c26> [options] | lspsim worker <ID> [options]");
+    }
+    let code = if args[0] == "worker" {
+        let cli = simcore::Cli::parse(&args[2..]);
+        driver::worker(def_of(&args[1]), &cli)
+    } else {
+        let cli = simcore::Cli::parse(&args[1..]);
+        if !cli.flag("inproc") {
+            println!("VERIF_SEED={} tier={} check={}", cli.seed, cli.tier, args[0]);
+        }
+        driver::coordinator(def_of(&args[0]), &cli)
+    };
+    std::process::exit(code);
+}
